@@ -618,11 +618,31 @@ def productions(P, R):
                         line=f.lineno)
     # substitution pair: `name DIV name` is new / old -> (old, new)
     f = P.func('dd._parser.Parser.p_substitution')
-    t = au.src(f.node).replace(' ', '')
-    if 'new=p[1]' in t and 'old=p[3]' in t and 'p[0]=(old,new)' in t:
+    pname = f.params[1] if len(f.params) > 1 else 'p'
+    env = dict()
+    result = None
+    for st in f.node.body:
+        if not (isinstance(st, ast.Assign) and len(st.targets) == 1):
+            continue
+        t, v = st.targets[0], st.value
+
+        def pidx(e):
+            if isinstance(e, ast.Subscript) and au.is_name(e.value, pname):
+                return au.const_int(e.slice)
+            if isinstance(e, ast.Name):
+                return env.get(e.id)
+            return None
+        if isinstance(t, ast.Name):
+            env[t.id] = pidx(v)
+        elif isinstance(t, ast.Subscript) and au.is_name(
+                t.value, pname) and au.const_int(t.slice) == 0 and \
+                isinstance(v, ast.Tuple):
+            result = tuple(pidx(e) for e in v.elts)
+    if result == (3, 1):
         R.holds('R-GRAMMAR', f.qualname, '`new / old` -> (old, new)')
-    elif 'p[0]=(p[3],p[1])' in t:
-        R.holds('R-GRAMMAR', f.qualname, '`new / old` -> (old, new)')
+    elif result is None or None in result:
+        R.undecided('R-GRAMMAR', f.qualname, 'substitution pair',
+                    'unrecognised')
     else:
         R.violation('R-GRAMMAR', 'action', f.qualname, 'name DIV name',
                     '`\\S new / old` no longer yields the pair '
@@ -630,66 +650,140 @@ def productions(P, R):
     R.floor('R-GRAMMAR productions checked', n, 14)
 
 
+def _arm_env(stmts, upto, opname, varargs):
+    """Symbolic values of the locals of one arm of _Translator._apply."""
+    env = dict()
+    for st in stmts:
+        if st is upto:
+            break
+        if not (isinstance(st, ast.Assign) and len(st.targets) == 1):
+            continue
+        t, v = st.targets[0], st.value
+        if isinstance(t, ast.Tuple) and au.is_name(v, varargs):
+            for k, e in enumerate(t.elts):
+                if isinstance(e, ast.Name):
+                    env[e.id] = ('opnd', k)
+            continue
+        if not isinstance(t, ast.Name):
+            continue
+        val = ('?', au.short(v, 30))
+        if isinstance(v, (ast.SetComp, ast.ListComp)) and len(
+                v.generators) == 1:
+            g = v.generators[0]
+            if isinstance(g.iter, ast.Name) and g.iter.id in env and \
+                    isinstance(v.elt, ast.Attribute) and \
+                    v.elt.attr == 'value' and isinstance(
+                        g.target, ast.Name) and au.is_name(
+                            v.elt.value, g.target.id):
+                val = ('values', env[g.iter.id])
+        elif isinstance(v, ast.Compare) and len(v.ops) == 1 and \
+                isinstance(v.ops[0], ast.Eq):
+            sides = [v.left, v.comparators[0]]
+            if any(au.is_name(x, opname) for x in sides):
+                c = [x.value for x in sides if isinstance(x, ast.Constant)]
+                if c:
+                    val = ('is-op', c[0])
+        elif isinstance(v, ast.DictComp) and len(v.generators) == 1:
+            g = v.generators[0]
+            if isinstance(g.iter, ast.Name) and g.iter.id in env and \
+                    isinstance(g.target, ast.Tuple) and len(
+                        g.target.elts) == 2 and all(
+                            isinstance(e, ast.Name)
+                            for e in g.target.elts):
+                names = [e.id for e in g.target.elts]
+
+                def pos(e):
+                    if isinstance(e, ast.Attribute) and e.attr == \
+                            'value' and isinstance(e.value, ast.Name) \
+                            and e.value.id in names:
+                        return names.index(e.value.id)
+                    return None
+                val = ('pairs', env[g.iter.id], (pos(v.key), pos(v.value)))
+        env[t.id] = val
+    return env
+
+
+def _enclosing_block(fn, call):
+    """Innermost statement list (and statement) that contains `call`."""
+    best = (None, None)
+    size = None
+    for blk in au.blocks_of(fn):
+        for st in blk:
+            if any(x is call for x in ast.walk(st)):
+                span = (st.end_lineno or st.lineno) - st.lineno
+                if size is None or span < size:
+                    best, size = (blk, st), span
+    return best
+
+
 def translator(P, R):
-    """_Translator._apply: operand roles of quantifiers and renaming."""
+    """_Translator._apply: operand roles of quantifiers and renaming.
+    The locals of each arm are resolved symbolically (operand positions,
+    `.value` of the names, `operator == const`, {old: new} over the
+    pairs), so the rule does not depend on what they are called."""
     f = P.func('dd._parser._Translator._apply')
-    src = au.src(f.node).replace(' ', '').replace('\n', '')
+    fn = f.node
+    opname = f.params[1] if len(f.params) > 1 else 'operator'
+    varargs = fn.args.vararg.arg if fn.args.vararg else None
+    if varargs is None:
+        raise AnalysisError('_Translator._apply no longer takes *operands')
     problems = []
-    calls = {au.call_name(c): c for c in au.calls_in(f.node)
+    undecided = []
+    calls = {au.call_name(c): c for c in au.calls_in(fn)
              if au.call_recv(c) == ['self', '_bdd']}
+
+    def resolve(e, env):
+        if isinstance(e, ast.Name):
+            return env.get(e.id, ('name', e.id))
+        return ('?', au.short(e, 30))
     q = calls.get('quantify')
     if q is None:
         problems.append('quantifiers are no longer sent to quantify()')
     else:
-        args = [au.src(a) for a in q.args]
-        kws = {k.arg: au.src(k.value) for k in q.keywords}
-        if args[:2] != ['expr', 'names'] or kws.get(
-                'forall', args[2] if len(args) > 2 else None) != 'forall':
-            problems.append(
-                f'`{au.short(q)}` does not pass (expr, names, forall)')
-    fa = [n for n in ast.walk(f.node) if isinstance(n, ast.Assign)
-          and au.is_name(n.targets[0], 'forall')]
-    undecided = []
-    if fa and isinstance(fa[0].value, ast.Compare) and isinstance(
-            fa[0].value.ops[0], ast.Eq):
-        consts = [x.value for x in ast.walk(fa[0].value)
-                  if isinstance(x, ast.Constant)]
-        if consts != ['\\A']:
-            problems.append(
-                f'`forall` is true for the operator {consts} instead of '
-                '"\\A"')
-    else:
-        undecided.append('assignment of `forall` not recognised')
-    unp = [n for n in ast.walk(f.node) if isinstance(n, ast.Assign)
-           and isinstance(n.targets[0], ast.Tuple) and au.is_name(
-               n.value, 'operands')]
-    tgts = {tuple(e.id for e in n.targets[0].elts) for n in unp}
-    if ('names', 'expr') not in tgts:
-        problems.append('quantifier operands are not unpacked as '
-                        '(names, expr)')
-    if ('subs', 'expr') not in tgts:
-        problems.append('renaming operands are not unpacked as '
-                        '(subs, expr)')
-    r = calls.get('rename')
-    if r is None or [au.src(a) for a in r.args] != ['expr', 'renaming']:
-        problems.append('renaming is not rename(expr, renaming)')
-    ren = [n for n in ast.walk(f.node) if isinstance(n, ast.Assign)
-           and au.is_name(n.targets[0], 'renaming')]
-    if ren and isinstance(ren[0].value, ast.DictComp):
-        d = ren[0].value
-        g = d.generators[0]
-        if isinstance(g.target, ast.Tuple) and len(
-                g.target.elts) == 2 and au.is_name(g.iter, 'subs'):
-            a, b = [e.id for e in g.target.elts]
-            k = au.src(d.key).replace(' ', '')
-            v = au.src(d.value).replace(' ', '')
-            if (k, v) == (f'{b}.value', f'{a}.value'):
+        blk, st = _enclosing_block(fn, q)
+        env = _arm_env(blk or [], st, opname, varargs)
+        args = [resolve(a, env) for a in q.args]
+        kws = {k.arg: resolve(k.value, env) for k in q.keywords}
+        fa = kws.get('forall', args[2] if len(args) > 2 else None)
+        if len(args) < 2 or args[0] != ('opnd', 1) or args[1] != (
+                'values', ('opnd', 0)):
+            if any(a[0] == '?' for a in args[:2]):
+                undecided.append(f'operands of `{au.short(q, 40)}`')
+            else:
                 problems.append(
-                    'the renaming maps new -> old instead of old -> new '
-                    '(the pairs are (old, new))')
+                    f'`{au.short(q, 50)}` does not pass (second operand, '
+                    'names of the first operand): the production is '
+                    '`\\A names : expr`')
+        if fa is None or fa[0] != 'is-op':
+            undecided.append('`forall` argument not recognised')
+        elif fa[1] != '\\A':
+            problems.append(
+                f'`forall` is true for the operator {fa[1]!r} instead of '
+                '"\\A"')
+    r = calls.get('rename')
+    if r is None:
+        problems.append('renaming is no longer sent to rename()')
+    else:
+        blk, st = _enclosing_block(fn, r)
+        env = _arm_env(blk or [], st, opname, varargs)
+        args = [resolve(a, env) for a in r.args]
+        if len(args) < 2 or args[0] != ('opnd', 1):
+            problems.append(
+                f'`{au.short(r, 50)}` does not rename the second operand '
+                '(the production is `\\S subs : expr`)')
+        elif args[1][0] != 'pairs' or args[1][1] != ('opnd', 0):
+            undecided.append('renaming map not recognised')
+        elif args[1][2] == (1, 0):
+            problems.append(
+                'the renaming maps new -> old instead of old -> new '
+                '(the pairs are (old, new))')
+        elif args[1][2] != (0, 1):
+            undecided.append('renaming map not recognised')
     a = calls.get('apply')
-    if a is None or [au.src(x) for x in a.args] != [
-            'operator', '*operands']:
+    if a is None or len(a.args) != 2 or not au.is_name(
+            a.args[0], opname) or not (isinstance(
+                a.args[1], ast.Starred) and au.is_name(
+                    a.args[1].value, varargs)):
         problems.append('other operators are not sent to '
                         'apply(operator, *operands)')
     if problems:
